@@ -367,6 +367,31 @@ func init() {
 				}
 			}
 		}
+		// resize bursts: a table populated with small entries (36..60 octets each), then SEVERAL SetMaxDynamicTableSize calls
+		// between two header blocks — shrink / grow / shrink again, non-monotone, values between one and a few entries — so
+		// that the smallest size of the interval matters (RFC 7541 section 4.2: it must be signalled before the final one)
+		for i := 0; i < 16+c.count/15; i++ {
+			r := c.rng.fork()
+			small := func() string {
+				return fmt.Sprintf("f%s.%s.0", hx([]byte(fmt.Sprintf("k%d", r.intn(40)))), hx([]byte(fmt.Sprintf("v%0*d", 1+r.intn(12), r.intn(10)))))
+			}
+			var ops []string
+			for j, n := 0, r.rangeI(3, 9); j < n; j++ {
+				ops = append(ops, small())
+			}
+			for b, nb := 0, r.rangeI(1, 3); b < nb; b++ {
+				for j, n := 0, r.rangeI(2, 5); j < n; j++ {
+					ops = append(ops, fmt.Sprintf("m%d", []int{0, 30, 40, 64, 80, 100, 120, 150, 300, 4096}[r.intn(10)]))
+				}
+				for j, n := 0, r.rangeI(1, 4); j < n; j++ {
+					ops = append(ops, small())
+				}
+			}
+			line := "ops=" + strings.Join(ops, ",")
+			c.tag("encops:resize-burst")
+			c.op("hpenc " + line)
+			c.op("hprt " + line) // oracle
+		}
 		for i := 0; i < c.count; i++ {
 			r := c.rng.fork()
 			ops := genEncOps(r)
